@@ -15,20 +15,25 @@ def rng_for(*parts):
 
 
 def gen_rows(rng, spec, max_rows=6):
-    """{table: [row,...]} with distinct per-column values (so later UNIQUE
-    additions cannot fail on data), NULLs in nullable columns, hostile
-    strings, boundary numbers, valid FK and M2M links."""
+    """{table: [row,...]}: 0..max_rows rows per model table, raw values.
+
+    Values are distinct per column (row index is part of every value) so that
+    UNIQUE additions later in a case cannot fail on data; nullable columns get
+    NULLs; strings carry quotes, percent signs, backslashes, unicode; numbers
+    include boundaries; FK / O2O / M2M links point at existing rows."""
     rows = {}
     counts = {}
     for app, mods in spec.items():
         for mname in mods:
             counts[(app, mname)] = rng.randint(0, max_rows)
-    strs = ['', "it's", 'a"b', '100%', '%s', 'back\\slash', 'ünï€',
-            'x', "'; DROP", 'NULL', ' sp ', 'Z']
+    strs = ['', "it's", 'a"b', '100%', '%s', 'back\\slash', '\u00fcn\u00ef\u20ac',
+            "'; DROP", 'NULL', ' sp ', '%(x)s', 'Z']
+    ints = [0, -1, 2147483647, -2147483648, 7, 100]
+    bigs = [0, -1, 9223372036854775807, -9223372036854775808, 12, 5]
+    poss = [0, 1, 2147483647, 5, 77, 1000]
     for app, mods in spec.items():
         for mname, ms in mods.items():
             n = counts[(app, mname)]
-            table = S.model_table(spec, app, mname)
             out = []
             for i in range(n):
                 r = {'id': i + 1}
@@ -42,7 +47,8 @@ def gen_rows(rng, spec, max_rows=6):
                         continue
                     if kind in ('ForeignKey', 'OneToOne'):
                         ta, tm = fdef['to'].split('.')
-                        tn = counts[(ta, tm)]
+                        tn = counts[(ta, tm)] if (ta, tm) != (app, mname) \
+                            else i + 1
                         if kind == 'OneToOne' or fdef.get('unique'):
                             v = i + 1 if i < tn else None
                         else:
@@ -52,23 +58,18 @@ def gen_rows(rng, spec, max_rows=6):
                             break
                         r[col] = v
                     elif kind in E.TEXT_KINDS:
-                        base = strs[i % len(strs)]
-                        v = '%s#%d' % (base, i) if i >= 1 else base
+                        v = '%d%s' % (i, rng.choice(strs))
                         if kind == 'Char':
-                            v = v[-(fdef.get('max_length') or 10):]
-                            v = '%d%s' % (i, v[1:]) if i else v
+                            v = v[:fdef.get('max_length') or 10]
                         r[col] = v
                     elif kind == 'Boolean':
                         r[col] = rng.choice([0, 1])
                     elif kind == 'PositiveInteger':
-                        r[col] = [0, 1, 2147483647, 5, 77, 1000][i % 6] + \
-                            (i // 6)
+                        r[col] = poss[i % 6]
                     elif kind == 'Integer':
-                        r[col] = [0, -1, 2147483647, -2147483648, 7,
-                                  100][i % 6]
+                        r[col] = ints[i % 6]
                     elif kind == 'BigInteger':
-                        r[col] = [0, -1, 9223372036854775807,
-                                  -9223372036854775808, 12, 5][i % 6]
+                        r[col] = bigs[i % 6]
                     elif kind == 'Decimal':
                         r[col] = ['0', '1.5', '-2.25', '10', '3.125',
                                   '99'][i % 6]
@@ -78,8 +79,7 @@ def gen_rows(rng, spec, max_rows=6):
                     break
                 out.append(r)
             counts[(app, mname)] = len(out)
-            rows[table] = out
-    # M2M link rows
+            rows[S.model_table(spec, app, mname)] = out
     for app, mods in spec.items():
         for mname, ms in mods.items():
             for fname, fdef in ms['fields']:
@@ -88,15 +88,9 @@ def gen_rows(rng, spec, max_rows=6):
                 ta, tm = fdef['to'].split('.')
                 n1, n2 = counts[(app, mname)], counts[(ta, tm)]
                 t = S.m2m_table(spec, app, mname, fname, fdef)
-                if (ta, tm) == (app, mname):
-                    c1 = 'from_%s_id' % mname.lower()
-                    c2 = 'to_%s_id' % mname.lower()
-                else:
-                    c1 = '%s_id' % mname.lower()
-                    c2 = '%s_id' % tm.lower()
-                links = []
-                seen = set()
-                for k in range(rng.randint(0, 4)):
+                c1, c2 = S.m2m_columns(app, mname, ta, tm)
+                links, seen = [], set()
+                for _k in range(rng.randint(0, 4)):
                     if not n1 or not n2:
                         break
                     pair = (rng.randint(1, n1), rng.randint(1, n2))
